@@ -58,6 +58,16 @@ pub fn sources() -> &'static Vec<(&'static str, String)> {
         v.push(("300-labels", many));
         v.push(("defines-lbl_3-itself", "br lbl_3\nlbl_3 halt\n".to_string()));
         v.push(("uses-undefined-lbl_7", "lea r0 lbl_7\nhalt\n".to_string()));
+        // the same statement number and the same target, once with an 11-bit and once with a 9-bit field
+        v.push(("jsr-600-ahead", "jsr far\nhalt\n.blkw #600\nfar ret\n".to_string()));
+        v.push(("br-600-ahead", "br far\nhalt\n.blkw #600\nfar ret\n".to_string()));
+        // a source of more than 64 KiB of text
+        let mut big = String::new();
+        for _ in 0..5200 {
+            big.push_str("add r0 r0 #0\n");
+        }
+        big.push_str("halt\n");
+        v.push(("text-over-64KiB", big));
         v
     })
 }
@@ -106,8 +116,11 @@ fn judge(seq: &[usize], baseline: &[Asm]) -> Option<(String, String)> {
 }
 
 pub fn run(ctx: &Ctx) -> i32 {
-    let max_len = ctx.tier.pick(4, 5);
+    // all sources up to length 4; thorough: additionally the 28 fixed (small) sources at length 5
+    let max_len = 4;
     let k = sources().len();
+    let k_fixed = FIXED_SOURCES.len();
+    let len5 = ctx.tier.pick(false, true);
     // Baseline: every source on its own fresh thread, twice (determinism of the oracle itself).
     let mut baseline = Vec::new();
     let mut pre = Acc::new();
@@ -134,9 +147,17 @@ pub fn run(ctx: &Ctx) -> i32 {
         offsets.push((len, total));
         total += util::pow(k, len);
     }
+    let all_total = total;
+    if len5 {
+        total += util::pow(k_fixed, 5);
+    }
     let parts = par_fold(total, 16, Acc::new, |acc, idx| {
-        let (len, off) = *offsets.iter().rev().find(|(_, off)| idx >= *off).unwrap();
-        let seq = util::seq(idx - off, k, len);
+        let (len, seq) = if idx >= all_total {
+            (5, util::seq(idx - all_total, k_fixed, 5))
+        } else {
+            let (len, off) = *offsets.iter().rev().find(|(_, off)| idx >= *off).unwrap();
+            (len, util::seq(idx - off, k, len))
+        };
         acc.eval(&format!("len{len}"));
         match judge(&seq, &baseline) {
             Some((sig, what)) => {
@@ -176,7 +197,7 @@ pub fn run(ctx: &Ctx) -> i32 {
         ctx,
         acc,
         Level { category: "model_checking", bfs: Some((n, n, n, max_len as u64)) },
-        "every sequence of length 1..=max_len over 31 sources (28 fixed ones, a source with 300 labels and two small ones mentioning some of them) (valid ones, and one failing at every error site of the assembler) (valid, failing at each stage, sharing and re-using label names) assembled on one thread with reset_state()+reclaim between elements; each element's result (image, origin, breakpoints, spans, or diagnostic incl. rendering) compared with the same source on a fresh thread; states = sequences (no merging: equality of the merged states is the property itself); distinct_nontrivial = sequences of length >= 2 that agreed",
+        "every sequence of length 1..=4 over 34 sources (thorough: also every sequence of length 5 over the 28 fixed ones) (28 fixed ones, a source with 300 labels and two small ones mentioning some of them, the same far reference through an 11-bit and a 9-bit field, a source of more than 64 KiB) (valid ones, and one failing at every error site of the assembler) (valid, failing at each stage, sharing and re-using label names) assembled on one thread with reset_state()+reclaim between elements; each element's result (image, origin, breakpoints, spans, or diagnostic incl. rendering) compared with the same source on a fresh thread; states = sequences (no merging: equality of the merged states is the property itself); distinct_nontrivial = sequences of length >= 2 that agreed",
         true,
         &["ok-after-failure", "failure-after-ok", "some-source-ok", "stage-lex", "stage-parse", "stage-backpatch", "stage-emit"],
         &["a fresh OS thread has the thread-local state of a fresh process", "diagnostic rendering is deterministic for equal (report, source)"],
